@@ -4,6 +4,8 @@ correspondence: every feature's get(i) and get(None) and Hedger.compute_hedge in
 the Lean model (Model/Hedger.lean, Float carrier; bitwise on dyadic markets, few ulp for logs).
 predicate (real code only): get(i) == get(None)[:, [i]]; batched hedge == forced-stepwise hedge;
 recorded model inputs show prev_hedge(i) == output(i-1), zeros of width H at step 0.
+Markets include options struck below zero and paths below zero (one sign per path); hedgers are also evaluated through copies
+(copy.deepcopy before / after use, pickle round trip, state_dict loaded into a newly built hedger) against a hand-unrolled recurrence.
 """
 from fractions import Fraction as F
 from common import *  # noqa
@@ -29,23 +31,102 @@ def vals_equal(a, b, log):
     return a == b if not log else close_ulp(a, b, 8)
 
 
-ROUTES = ["inject", "inject", "underlier", "sibling", "derivative", "cast"]
+def signed_market(g, mk, strike=True):
+    """legal markets the shared generator never produces: an option struck below zero (floors / caps on rates, spreads) and
+    paths below zero.  A path keeps ONE sign, so that a logarithm is defined on the whole path or nowhere (torch's max / cummax
+    propagate NaN, the model's `max` keeps its left argument: paths of mixed sign would only compare NaN conventions)."""
+    if strike and g.chance(0.3):
+        mk["strike"] = -mk["strike"]
+    if g.chance(0.3):
+        flip = [g.chance(0.6) for _ in range(mk["N"])]
+        mk["spot"] = [[-x for x in p] if fl else p for p, fl in zip(mk["spot"], flip)]
+    return mk
+
+
+def sign_class(mk):
+    """input class of a market for the failure keys ('' = positive strike, positive paths)"""
+    return ":strike<0" if mk["strike"] < 0 else ":spot<0" if any(p[0] < 0 for p in mk["spot"]) else ""
+
+
+def rebase_market(mk2, mk):
+    """a replacement market `mk2` as the objects built on `mk` see it: strike, grid step, pricer of the listed derivative and the
+    constant volatility of Brownian / Merton underliers belong to the instruments, not to the injected buffers"""
+    mk2 = mk2 | {k: mk[k] for k in ("strike", "dt", "listed", "option", "call", "cost", "sigma")}
+    if mk["primary"] in ("BrownianStock", "MertonJumpStock"):
+        mk2["vol"] = [[mk["sigma"]] * mk2["T"] for _ in range(mk2["N"])]
+        mk2["var"] = [[mk["sigma"] * mk["sigma"]] * mk2["T"] for _ in range(mk2["N"])]
+    return mk2
+
+
+def hedge_usable(name, mk):
+    """inputs of a hedging MODEL must be finite (relu / 0 * x of NaN or -inf only compare conventions): a log feature is offered
+    only where its argument is positive on every path"""
+    a, b = mk["listed"]
+    if name == "empty":
+        return False
+    if name in ("log_moneyness", "max_log_moneyness"):
+        return all(x / mk["strike"] > 0 for p in mk["spot"] for x in p)
+    if name == "underlier_log_spot":
+        return all(x > 0 for p in mk["spot"] for x in p)
+    if name == "log_spot":
+        return all(x * a + b > 0 for p in mk["spot"] for x in p)
+    return True
+
+
+def blank_model(ms):
+    """same architecture, every weight and bias zero (the target of a state_dict round trip)"""
+    z = lambda rows: [[F(0)] * len(r) for r in rows]   # noqa
+    if ms["kind"] == "linear":
+        return dict(ms, w=z(ms["w"]), b=[F(0)] * len(ms["b"]))
+    return dict(ms, layers=[dict(w=z(l["w"]), b=[F(0)] * len(l["b"])) for l in ms["layers"]])
+
+
+COPY_KINDS = ["deepcopy_fresh", "deepcopy_used", "pickle_fresh", "state_dict"]
+
+
+def copy_hedger(ctx, h, kind, rebuild):
+    """another hedger object that must behave like `h`: a deep copy, a pickle round trip (where the hedger can be pickled: not
+    with a locally defined module), or a newly built hedger of the same architecture that loads h's state_dict"""
+    import copy
+    import pickle
+    if kind == "state_dict":
+        h2 = rebuild()
+        h2.load_state_dict(h.state_dict())
+        return h2
+    if kind == "pickle_fresh":
+        try:
+            h2 = pickle.loads(pickle.dumps(h))
+            ctx.stats["copy=pickle(done)"] += 1
+            return h2
+        except Exception:  # noqa   (not picklable: not a statement of the property)
+            ctx.stats["copy=pickle(not picklable -> deepcopy)"] += 1
+    return copy.deepcopy(h)
+
+
+ROUTES = ["inject", "inject", "underlier", "sibling", "derivative", "cast", "deepcopy"]
 
 
 def second_round(torch, g, f, d, u, mk, name):
     """the SAME feature object / derivative, already evaluated step by step on the market `mk`, is evaluated again after
     the prices of the underlier were replaced by a route chosen at random: buffers re-registered with another market
     (possibly another number of paths), the underlier simulated directly, a sibling derivative on the same underlier
-    simulated, the derivative itself simulated, or the derivative cast to another dtype.  Whatever the feature / the
-    derivative remembered from the first round must not show: single steps == columns of the batched value."""
+    simulated, the derivative itself simulated, the derivative cast to another dtype, or a DEEP COPY of the bound feature (with its
+    own derivative and underlier) given another market.  Whatever the feature / the derivative remembered from the first round must
+    not show: single steps == columns of the batched value (routes with an injected dyadic market also go to the model)."""
     import pfhedge.instruments as I
     T = mk["T"]
     route = g.choice([r for r in ROUTES if not (name == "module_output" and r == "cast")])   # (the float64 module is not cast)
-    info = {"route": route}
-    if route == "inject":
-        mk2 = gen_market(g, T=T, primary=mk["primary"])
+    info = {"route": route, "class": ":strike<0" if mk["strike"] < 0 else ""}
+    mk2 = None
+    if route in ("inject", "deepcopy"):
+        if route == "deepcopy":
+            # a deep copy of the bound feature carries its own derivative and underlier: the COPY is evaluated on another market
+            import copy
+            f, d = copy.deepcopy((f, d))
+            u = d.ul()
+        mk2 = rebase_market(signed_market(g, gen_market(g, T=T, primary=mk["primary"]), strike=False), mk)
         inject(torch, u, mk2)
-        info |= {"spot": enc_rat(mk2["spot"]), "var": enc_rat(mk2["var"]), "vol": enc_rat(mk2["vol"])}
+        info |= {"spot": enc_rat(mk2["spot"]), "var": enc_rat(mk2["var"]), "vol": enc_rat(mk2["vol"]), "class": sign_class(mk2)}
     elif route == "cast":
         d.to(torch.float32)
     else:
@@ -70,22 +151,23 @@ def second_round(torch, g, f, d, u, mk, name):
     ats = [call_impl(f.get, i)[:2] for i in steps]
     if not batched_first:
         r_all = call_impl(f.get, None)[:2]
-    return info, r_all, ats, (N2, T2), u.spot.dtype
+    return info, r_all, ats, (N2, T2), u.spot.dtype, mk2
 
 
-def judge_second_round(ctx, torch, second, case, name, log):
-    info, (st_all, v_all), ats, (N, T), dtype = second
+def judge_second_round(ctx, torch, second, case, name, log, fjson=None):
+    """returns the (request, meta) pairs for the model (routes with a known dyadic market, all evaluations succeeded)"""
+    info, (st_all, v_all), ats, (N, T), dtype, mk2 = second
     case = case | {"second_round": info}
     ctx.case(case, nontrivial=T >= 2, tag="feature_second_round")
     ctx.stats[f"route={info['route']}"] += 1
-    key = f"feature:{name}:step-vs-all:after-market-change"
+    key = f"feature:{name}:step-vs-all:after-market-change" + (":copy" if info["route"] == "deepcopy" else "") + info["class"]
     if st_all != "ok":
         ctx.fail(f"feature {name}.get(None) raised after the market was replaced ({info['route']})", case, key=key + ":error", detail=v_all)
-        return
+        return []
     width = v_all.shape[-1]
     if tuple(v_all.shape) != (N, T, width):
         ctx.fail(f"feature {name}.get(None) has shape {tuple(v_all.shape)} on a market of shape {(N, T)}", case, key=key + ":shape")
-        return
+        return []
     allv = v_all.to(torch.float64).tolist()
     ulp = 2.0 ** -52 if dtype == torch.float64 else 2.0 ** -23
     # tolerance: as in the first round (bitwise; 8 ulp of the dtype for logs and the time to maturity); a module applied to
@@ -115,19 +197,25 @@ def judge_second_round(ctx, torch, second, case, name, log):
         if len(at) != len(col) or not all(same(x, y) for x, y in zip(at, col)):
             ctx.fail(f"feature {name}: after the market was replaced ({info['route']}) get(i) on the same feature object differs from "
                      "column i of get(None)", case | {"i": i}, key=key, detail={"at": at, "col": col})
+    if mk2 is None or fjson is None or any(st != "ok" or tuple(v.shape) != (N, 1, width) for st, v in ats):
+        return []
+    # correspondence with the model on the replacement market, path by path
+    return [({"op": "feat", "market": market_json(mk2, p), "feature": fjson, "steps": info["steps"], "prev": [], "n": T},
+             ("feat", case | {"path": p}, name, log, [row for row in allv[p]],
+              [("ok", v.to(torch.float64)[p, 0].tolist()) for _, v in ats])) for p in range(N)]
 
 
 def check(ctx):
     torch, pfhedge = import_impl()
     from pfhedge.nn import Hedger
-    from pfhedge.features import ModuleOutput
+    from pfhedge.features import ModuleOutput, FeatureList
     g = ctx.gen
     ctx.lean_gate()
     reqs, metas = [], []
     n_feat = 1500 if ctx.tier == "quick" else 6000
     # ------------------------------------------------------------------ features
     for _ in range(n_feat):
-        mk = gen_market(g)
+        mk = signed_market(g, gen_market(g))
         name = g.choice(BASE_FEATURES + ["module_output"])
         thr = g.choice([x for p in mk["spot"] for x in p] + [g.dy(F(1, 2), 4, 3)])
         sub = subj = None
@@ -163,9 +251,13 @@ def check(ctx):
             second = second_round(torch, g, f, d, u, mk, name)
         ctx.stats[f"feature={name}"] += 1
         ctx.stats[f"primary={mk['primary']}"] += 1
+        ctx.stats[f"strike{'<0' if mk['strike'] < 0 else '>0'}"] += 1
+        ctx.stats[f"paths below zero={sum(p[0] < 0 for p in mk['spot']) > 0}"] += 1
         ctx.case(case, nontrivial=T >= 2, tag="feature")
         ctx.traces += 1
-        judge_second_round(ctx, torch, second, case, name, log)
+        for rq, mt in judge_second_round(ctx, torch, second, case, name, log, feature_json(name, thr, subj)):
+            reqs.append(rq)
+            metas.append(mt)
         if st_all != "ok":
             ctx.fail(f"feature {name}.get(None) raised", case, key=f"feature:{name}:get(None):error", detail=v_all)
             continue
@@ -189,7 +281,7 @@ def check(ctx):
             tol_log = log or name == "time_to_maturity"     # ttm: real identity, <= 2 ulp in floats (DESIGN 5.3)
             if not vals_equal(v.to(torch.float64).tolist(), col, tol_log):
                 ctx.fail(f"feature {name}: get(i) differs from column i of get(None)", case | {"i": i},
-                         key=f"feature:{name}:step-vs-all", detail={"at": v.tolist(), "col": col})
+                         key=f"feature:{name}:step-vs-all" + sign_class(mk), detail={"at": v.tolist(), "col": col})
         # correspondence with the model, path by path
         for p in range(N):
             reqs.append({"op": "feat", "market": market_json(mk, p), "feature": feature_json(name, thr, subj), "steps": steps,
@@ -235,10 +327,11 @@ def check(ctx):
     # ------------------------------------------------------------------ hedges in both modes
     n_h = 800 if ctx.tier == "quick" else 3500
     for _ in range(n_h):
-        mk = gen_market(g)
+        mk = signed_market(g, gen_market(g))
         H = g.choice([1, 1, 2, 3])
         k = g.choice([1, 2, 3])
-        names = [g.choice([n for n in BASE_FEATURES if n != "empty"]) for _ in range(k)]
+        usable = [n for n in BASE_FEATURES if hedge_usable(n, mk)]
+        names = [g.choice(usable) for _ in range(k)]
         thr = g.choice([x for p in mk["spot"] for x in p])
         kindm = g.choice(["linear", "mlp", "linear"])
         ms = gen_linear(g, k, H) if kindm == "linear" else gen_mlp(g, k, H)
@@ -258,8 +351,29 @@ def check(ctx):
                 rec.append(x.detach().clone())
                 return self.inner(x[..., :-self.H])
         h_step = Hedger(DropPrev(base, H), [feature_obj(torch, n, mk, thr) for n in names] + ["prev_hedge"])
+        # a model that really consumes prev_hedge (directly, or through a ModuleOutput that hands it on unchanged)
+        msp = gen_linear(g, k + H, H)
+        prev_form = g.choice(["prev_hedge", "prev_hedge", "module_output(prev_hedge)"])
+        prev_feat = lambda: "prev_hedge" if prev_form == "prev_hedge" else ModuleOutput(torch.nn.Identity(), ["prev_hedge"])   # noqa
+        m_prev = model_obj(torch, msp)
+        h_prev = Hedger(m_prev, [feature_obj(torch, n, mk, thr) for n in names] + [prev_feat()])
+        # COPIES of the three hedgers (taken before or after the originals were used), see copy_hedger
+        copy_kind = g.choice(COPY_KINDS + ["none"] * 3)
+        rebuild = {"batched": lambda: Hedger(model_obj(torch, blank_model(ms)), [feature_obj(torch, n, mk, thr) for n in names]),
+                   "step": lambda: Hedger(DropPrev(model_obj(torch, blank_model(ms)), H), [feature_obj(torch, n, mk, thr) for n in names] + ["prev_hedge"]),
+                   "prev": lambda: Hedger(model_obj(torch, blank_model(msp)), [feature_obj(torch, n, mk, thr) for n in names] + [prev_feat()])}
+        originals = {"batched": h_batched, "step": h_step, "prev": h_prev}
+        copies = {}
+        if copy_kind.endswith("_fresh"):
+            copies = {w: copy_hedger(ctx, h, copy_kind, rebuild[w]) for w, h in originals.items()}
+        stc1 = stc2 = stc3 = st2c = st3c = "skipped"
+        outc1 = outc2 = outc3 = out2c = out3c = None
+        rec_copy = rec_third = []
         hedge = [u] + extra_hedges(torch, g, mk, H - 1)
         ctx.stats[f"H={H}"] += 1
+        ctx.stats[f"copy={copy_kind}"] += 1
+        ctx.stats[f"hedge: strike{'<0' if mk['strike'] < 0 else '>0'}"] += 1
+        cls = sign_class(mk)
         case = {"H": H, "features": names, "thr": rat_str(thr), "model": model_json(ms), "option": mk["option"], "primary": mk["primary"],
                 "T": T, "N": N, "spot": enc_rat(mk["spot"]), "strike": rat_str(mk["strike"]), "dt": rat_str(mk["dt"])}
         with torch.no_grad():
@@ -279,17 +393,53 @@ def check(ctx):
             st2b, out2b, mut = call_impl(h_step.compute_hedge, d, hedge, watch=[("derivative", d)])
             rec_second = list(rec)
             del rec[:]
-            rec.extend(rec_first)
             # a model that really consumes prev_hedge, evaluated twice
-            msp = gen_linear(g, k + H, H)
-            h_prev = Hedger(model_obj(torch, msp), [feature_obj(torch, n, mk, thr) for n in names] + ["prev_hedge"])
             inject(torch, u, mk)
             st3, out3, _ = call_impl(h_prev.compute_hedge, d, hedge)
             inject(torch, u, mk)
             st3b, out3b, _ = call_impl(h_prev.compute_hedge, d, hedge)
+            # the recurrence written out by hand (independent of the hedger's bookkeeping): x_i = (features at step i, out_{i-1}),
+            # out_i = model(x_i), out_{-1} = 0 with one entry per hedging instrument; the last column repeats column T-2
+            inject(torch, u, mk)
+            st_ref, ref3 = "ok", None
+            try:
+                fl = FeatureList([feature_obj(torch, n, mk, thr) for n in names]).of(d)
+                prev_, cols = torch.zeros(N, 1, H, dtype=torch.float64), []
+                for i in range(T - 1):
+                    prev_ = m_prev(torch.cat([fl.get(i), prev_], dim=-1))
+                    cols.append(prev_)
+                ref3 = torch.cat(cols + [cols[-1]], dim=-2).transpose(-1, -2)
+            except Exception as e:  # noqa
+                st_ref = repr(e)
+            # the copies: each evaluated (the step-by-step one with the recording wrapper), then the original once more
+            if copy_kind != "none":
+                if not copies:
+                    copies = {w: copy_hedger(ctx, h, copy_kind, rebuild[w]) for w, h in originals.items()}
+                inject(torch, u, mk)
+                stc1, outc1, _ = call_impl(copies["batched"].compute_hedge, d, hedge)
+                inject(torch, u, mk)
+                stc2, outc2, _ = call_impl(copies["step"].compute_hedge, d, hedge)
+                rec_copy = list(rec)
+                del rec[:]
+                inject(torch, u, mk)
+                stc3, outc3, _ = call_impl(copies["prev"].compute_hedge, d, hedge)
+                inject(torch, u, mk)
+                st3c, out3c, _ = call_impl(h_prev.compute_hedge, d, hedge)
+                inject(torch, u, mk)
+                st2c, out2c, _ = call_impl(h_step.compute_hedge, d, hedge)
+                rec_third = list(rec)
+                del rec[:]
+            rec.extend(rec_first)
         ctx.case(case, nontrivial=True, tag="hedge_modes")
         ctx.traces += 1
         ctx.stats[f"model={kindm}"] += 1
+        anylog = any(n in LOG_FEATURES or n == "time_to_maturity" for n in names)
+
+        def same_hedge(x, y):
+            """bitwise; with log features / time to maturity as the batched-vs-stepwise predicate below"""
+            if tuple(x.shape) != tuple(y.shape):
+                return False
+            return torch.equal(x, y) if not anylog else all(near(p_, q_) for p_, q_ in zip(x.reshape(-1).tolist(), y.reshape(-1).tolist()))
         if st2 == "ok" and (st2b != "ok" or not torch.equal(out2, out2b) or len(rec_second) != len(rec_first)
                             or any(not torch.equal(a_, b_) for a_, b_ in zip(rec_first, rec_second))):
             ctx.fail("a second step-by-step evaluation on the same hedger sees different model inputs (prev_hedge at step 0 must be zero again)", case,
@@ -298,16 +448,56 @@ def check(ctx):
         if st3 == "ok" and (st3b != "ok" or not torch.equal(out3, out3b)):
             ctx.fail("a hedger consuming prev_hedge gives a different hedge when evaluated a second time on the same market", case | {"prev_model": model_json(msp)},
                      key="compute_hedge:second-evaluation", detail={"first": out3.tolist(), "second": out3b.tolist() if st3b == "ok" else str(out3b)})
+        # ---- hand-unrolled recurrence: the original, then the copies
+        casep = case | {"prev_model": model_json(msp), "prev_form": prev_form}
+        casec = case | {"copy": copy_kind}
+        if st_ref != "ok":
+            raise InternalError("hand-unrolled recurrence raised: " + st_ref)
+        if st3 == "ok" and not same_hedge(out3, ref3):
+            ctx.fail("a hedger consuming prev_hedge does not follow out_i = model(features_i, out_{i-1}), out_{-1} = 0", casep,
+                     key="compute_hedge:prev_hedge:recurrence" + cls, detail={"hedger": out3.tolist(), "by_hand": ref3.tolist()})
+        copied = copy_kind != "none"
+        if copied and st3 == "ok" and (stc3 != "ok" or not same_hedge(outc3, ref3)):
+            ctx.fail(f"a copy ({copy_kind}) of a hedger consuming prev_hedge does not follow out_i = model(features_i, out_{{i-1}}), out_{{-1}} = 0",
+                     casep | {"copy": copy_kind}, key="compute_hedge:copy:recurrence",
+                     detail={"copy": outc3.tolist() if stc3 == "ok" else str(outc3)[:200], "by_hand": ref3.tolist()})
+        if copied and st3 == "ok" and (st3c != "ok" or not torch.equal(out3, out3c)):
+            ctx.fail(f"after a copy ({copy_kind}) of it was evaluated, a hedger consuming prev_hedge gives another hedge on the same market",
+                     casep | {"copy": copy_kind}, key="compute_hedge:copy:original-disturbed",
+                     detail={"before": out3.tolist(), "after": out3c.tolist() if st3c == "ok" else str(out3c)[:200]})
+        if copied and st2 == "ok" and (st2c != "ok" or not torch.equal(out2, out2c) or len(rec_third) != len(rec_first)
+                            or any(not torch.equal(a_, b_) for a_, b_ in zip(rec_first, rec_third))):
+            ctx.fail(f"after a copy ({copy_kind}) of it was evaluated, a step-by-step hedger sees other model inputs on the same market", casec,
+                     key="compute_hedge:copy:original-disturbed")
+        if copied and st1 == "ok" and st2 == "ok":
+            if stc1 != "ok" or stc2 != "ok":
+                ctx.fail(f"compute_hedge raised on a copy ({copy_kind}) of a hedger that works", casec, key="compute_hedge:copy:error",
+                         detail=[str(outc1)[:200], str(outc2)[:200]])
+            else:
+                if not same_hedge(outc1, outc2):
+                    ctx.fail(f"a copy ({copy_kind}) of a hedger with state-independent inputs gives different hedges all-at-once and step-by-step", casec,
+                             key="compute_hedge:copy:batched-vs-stepwise", detail={"batched": outc1.tolist(), "stepwise": outc2.tolist()})
+                if len(rec_copy) != T - 1:
+                    ctx.fail(f"the model of a copy ({copy_kind}) is not called once per step 0..T-2 in the step-by-step mode", casec,
+                             key="compute_hedge:copy:calls", detail={"calls": len(rec_copy)})
+                else:
+                    for i, x in enumerate(rec_copy):
+                        prev = x[..., -H:].squeeze(1).tolist()
+                        exp = [[0.0] * H for _ in range(N)] if i == 0 else [[outc2[p][hh][i - 1].item() for hh in range(H)] for p in range(N)]
+                        if tuple(x.shape) != (N, 1, k + H) or prev != exp:
+                            ctx.fail(f"in a copy ({copy_kind}) of a hedger, prev_hedge seen by the model at step i is not the model's output at step i-1 "
+                                     "(zeros of width H at step 0)", casec | {"i": i}, key="compute_hedge:copy:prev_hedge",
+                                     detail={"seen": prev, "expected": exp, "shape": list(x.shape)})
+                            break
         if st1 != "ok" or st2 != "ok":
             ctx.fail("compute_hedge raised on a well-formed market", case, key="compute_hedge:error", detail=[str(out1)[:100], str(out2)[:100]])
             continue
-        anylog = any(n in LOG_FEATURES or n == "time_to_maturity" for n in names)
         a, b = out1.tolist(), out2.tolist()
         ok = vals_equal(a, b, False) if not anylog else all(
             near(x, y) for pa, pb in zip(a, b) for ra, rb in zip(pa, pb) for x, y in zip(ra, rb))
         if not ok:
             ctx.fail("a hedger with state-independent inputs gives different hedges all-at-once and step-by-step", case,
-                     key="compute_hedge:batched-vs-stepwise", detail={"batched": a, "stepwise": b})
+                     key="compute_hedge:batched-vs-stepwise" + cls, detail={"batched": a, "stepwise": b})
         # recorded inputs: prev_hedge column at step i == output at step i-1; zeros (width H) at step 0
         if len(rec) != T - 1:
             ctx.fail("the model is not called once per step 0..T-2 in the step-by-step mode", case, key="compute_hedge:calls",
@@ -328,6 +518,16 @@ def check(ctx):
             ms2 = dict(kind="drop_last", h=H, inner=ms)
             reqs.append({"op": "hedge", "market": market_json(mk, p), "features": fj + [["prev_hedge"]], "model": model_json(ms2), "n": T, "h": H})
             metas.append(("hedge", case | {"path": p, "mode": "stepwise"}, None, anylog, [[out2[p][hh][t].item() for hh in range(H)] for t in range(T)], None))
+            # a model that consumes prev_hedge (the ModuleOutput form hands prev_hedge on unchanged), and the copies
+            if st3 == "ok":
+                reqs.append({"op": "hedge", "market": market_json(mk, p), "features": fj + [["prev_hedge"]], "model": model_json(msp), "n": T, "h": H})
+                metas.append(("hedge", casep | {"path": p, "mode": "recurrent"}, None, anylog, [[out3[p][hh][t].item() for hh in range(H)] for t in range(T)], None))
+            if p == 0 and stc2 == "ok" and tuple(outc2.shape) == (N, H, T):
+                reqs.append({"op": "hedge", "market": market_json(mk, p), "features": fj + [["prev_hedge"]], "model": model_json(ms2), "n": T, "h": H})
+                metas.append(("hedge", casec | {"path": p, "mode": "stepwise-copy"}, None, anylog, [[outc2[p][hh][t].item() for hh in range(H)] for t in range(T)], None))
+            if p == 0 and st3 == "ok" and stc3 == "ok" and tuple(outc3.shape) == (N, H, T):
+                reqs.append({"op": "hedge", "market": market_json(mk, p), "features": fj + [["prev_hedge"]], "model": model_json(msp), "n": T, "h": H})
+                metas.append(("hedge", casep | {"copy": copy_kind, "path": p, "mode": "recurrent-copy"}, None, anylog, [[outc3[p][hh][t].item() for hh in range(H)] for t in range(T)], None))
     try:
         outs = ctx.driver(reqs)
     except DriverBroken as e:
@@ -358,7 +558,10 @@ def check(ctx):
         rule="features: all registered features + Barrier(up/down, threshold tied to a path value) + Ones + log variants + ModuleOutput over "
              "Brownian/Heston/Merton/LocalVol underliers x 4 option types on dyadic injected buffers (ties, zero/negative variance), steps {0,T-1,random}; "
              "second round on the same feature/derivative objects after the market was replaced (buffers re-registered, underlier / sibling derivative / "
-             "derivative simulated, cast to float32); hedges: linear/MLP dyadic models through both branches with a recording wrapper; non-trivial = T>=2; distinct = sha1 of canonical case")
+             "derivative simulated, cast to float32, deep copy of the bound feature); strikes below zero and paths below zero (one sign per path; log features of a "
+             "hedging model only where defined); hedges: linear/MLP dyadic models through both branches with a recording wrapper, a model consuming prev_hedge "
+             "(directly / through ModuleOutput) against the hand-unrolled recurrence, and the same on copies of the hedgers (deepcopy before / after use, "
+             "pickle, state_dict into a newly built hedger); non-trivial = T>=2; distinct = sha1 of canonical case")
 
 
 def pad_model(ms, H):
